@@ -11,7 +11,11 @@ inputs (DESIGN §3.6): decision trees over the Boolean atoms hasGt / inTargets /
 at the leaves; every order relation (between confidences, between precisions) is enumerated up front as a rank pattern, one
 table row per weak ordering. Each `…_code_table_eq_model` below is the per-run obligation "the regenerated table = the model's
 skeleton on EVERY consistent valuation / for EVERY ordering", discharged by kernel evaluation of a complete check (`agree`
-of `PEval/Model/ClearDT.lean`, sound by `agree_sound`; plain equality of normal forms for the rows without atoms). A rewrite
+of `PEval/Model/ClearDT.lean`, sound by `agree_sound`; plain equality of normal forms for the rows without atoms).
+WHAT THE C04 TEXT LEAVES OPEN IS LEFT OPEN BY THE OBLIGATIONS (the same that the Python oracle `_cmp_ap` admits): in (a) the order
+among results of EQUAL confidence, the `tp_list` / `fp_list` / "AP undefined or 0" of an EMPTY ranking, and whether an ignored
+result counts in `fp_list` (`tpfpAdmits`; where none of these applies the leaf is pinned: `tpfpAdmits_pinned`,
+`table_tpfp_is_model`); in (c) the order of `Map.aps` (read as a mapping label ↦ `Ap`: `canonMap`) and the exception class. A rewrite
 of the source that keeps the decisions and the arithmetic leaves them provable with no edits (normal forms do not see how
 an expression is spelled, `agree` does not see in which order independent tests are made); a rewrite that changes either
 makes the build fail at that theorem. Rows `[]` = the translator could not follow the source (`…Note` says why): the theorems
@@ -22,11 +26,13 @@ namespace PEval.C04
 open PEval.AP PEval.ClearDT PEval.APDT
 
 /-- (a) `Ap.__init__` up to `tp_list` / `fp_list` / "ap defined": for every tabulated shape (no result; every weak ordering
-of 1..3 confidences) the code's tree answers what the skeleton answers — the results ranked by the MODEL's `sortDesc`, each
-classified as in the model's `classify`, running sums of the TP weights and FP flags. -/
+of 1..3 confidences) the code's tree answers a leaf the skeleton's kinds ADMIT (`tpfpAdmits`) — the results ranked by the
+MODEL's `sortDesc` up to the order inside a group of equal confidences, each classified as in the model's `classify`, running
+sums of the TP weights and FP flags (an ignored result filed as ignored or as FP); for an empty ranking: it returns. -/
 theorem tpfp_code_table_eq_model :
     (Gen.APDT.tpfpRows = [] ∨ Gen.APDT.tpfpRows.map (fun r => (r.1, r.2.1)) = tpfpShapes) ∧
-    ∀ r ∈ Gen.APDT.tpfpRows, ∀ v : Val, v.consistent → r.2.2.eval v = .ok (tpfpAtoms r.1 r.2.1 v) := by
+    ∀ r ∈ Gen.APDT.tpfpRows, ∀ v : Val, v.consistent →
+      tpfpAdmits r.1 r.2.1 (r.2.2.eval v) ((sortIdx r.1).map (kindAtoms v)) = true := by
   have h : tpfpOk Gen.APDT.tpfpRows = true := by decide +kernel
   unfold tpfpOk at h
   rw [Bool.and_eq_true, Bool.or_eq_true, List.all_eq_true] at h
@@ -35,7 +41,8 @@ theorem tpfp_code_table_eq_model :
     · exact Or.inl (List.isEmpty_iff.1 h1)
     · exact Or.inr (by simpa using h1)
   · intro r hr v hc
-    rw [agree_sound v hc (tpfpSk r.1 r.2.1) r.2.2 PVal.empty (h.2 r hr) (sat_empty v), eval_tpfpSk]
+    rw [← eval_kindsTree]
+    exact relTree_sound _ _ _ (h.2 r hr) v hc
 
 /-- (b1) `get_precision_recall_list` on a symbolic `tp_list` of length n ≤ 3: `precision i = t i / (i+1)`,
 `recall i = t i / g` if `g > 0` else `0`, as normal forms -/
@@ -63,10 +70,11 @@ theorem area_code_eq_model :
   · exact Or.inr (by simpa using h1)
 
 /-- (c) `Map.__init__` for ≤ 3 labels and the tabulated key orders of its two dicts: every `Ap` is built from the dict
-entries and the threshold of ITS label, in target order; mAP / mAPH are the means over the labels with a result -/
+entries and the threshold of ITS label (the list `aps` read as a mapping target label ↦ `Ap`: `canonMap` lists it by target
+label; every exception is one code); mAP / mAPH are the means over the labels with a result -/
 theorem map_code_table_eq_model :
     (Gen.APDT.mapRows = [] ∨ ∀ s ∈ mapRequired, ∃ r ∈ Gen.APDT.mapRows, r.1 = s) ∧
-    ∀ r ∈ Gen.APDT.mapRows, ∀ v : Val, v.consistent → r.2.eval v = mapAtoms r.1 v := by
+    ∀ r ∈ Gen.APDT.mapRows, ∀ v : Val, v.consistent → canonMapE (r.2.eval v) = mapAtoms r.1 v := by
   have h : mapOk Gen.APDT.mapRows = true := by decide +kernel
   unfold mapOk at h
   rw [Bool.and_eq_true, Bool.or_eq_true] at h
@@ -78,7 +86,9 @@ theorem map_code_table_eq_model :
       obtain ⟨r, hr, hrs⟩ := List.any_eq_true.1 this
       exact ⟨r, hr, by simpa using hrs⟩
   · intro r hr v hc
-    rw [agree_sound v hc (mapSk r.1) r.2 PVal.empty (List.all_eq_true.1 h.2 r hr) (sat_empty v), eval_mapSk]
+    have := agree_sound v hc (mapSk r.1) (mapTree canonMapE r.2) PVal.empty (List.all_eq_true.1 h.2 r hr) (sat_empty v)
+    rw [eval_mapTree, eval_mapSk] at this
+    exact this
 
 /-- WHAT THE CODE'S AREA TABLE SAYS ABOUT NUMBERS (composition of `area_code_eq_model` with the bridge `areaModel_eval`,
 which holds for lists of any length, and with `apCode_eq_apSpec`): for every row of the table and every precision / recall
@@ -124,24 +134,39 @@ the `Ap` of target label `i` from the entries of label `i` of both dicts and fro
 per-label values `env ("ap", i)`, is the mean over the labels whose bucket is not empty (`inf` if there is none) -/
 theorem table_map_pairs_by_label_and_is_mean (env : Var → Rat) :
     ∀ r ∈ Gen.APDT.mapRows, ∀ v : Val, v.consistent → ∀ leaf, r.2.eval v = .ok leaf →
-      leaf.aps = (List.range r.1.L).map (fun i => (false, i, i, i, i)) ∧
+      (canonMap leaf).aps = (List.range r.1.L).map (fun i => (false, i, i, i, i)) ∧
       leaf.map.map (evalNF env) =
         (if (definedLabels r.1.L ((List.range r.1.L).map fun i => v.b (.empty i))).isEmpty then none
          else some (((definedLabels r.1.L ((List.range r.1.L).map fun i => v.b (.empty i))).map fun i => env ("ap", i)).sum /
                 ((definedLabels r.1.L ((List.range r.1.L).map fun i => v.b (.empty i))).length : Rat))) := by
   intro r hmem v hc leaf hl
-  rw [map_code_table_eq_model.2 r hmem v hc] at hl
-  unfold mapAtoms at hl
-  split at hl
-  · cases hl
-    exact ⟨rfl, meanNF_eval env "ap" _⟩
-  · cases hl
+  have hm := map_code_table_eq_model.2 r hmem v hc
+  rw [hl] at hm
+  change Except.ok (canonMap leaf) = _ at hm
+  unfold mapAtoms at hm
+  split at hm
+  · have hm' := Except.ok.inj hm
+    have h1 : (canonMap leaf).aps = _ := congrArg MapLeaf.aps hm'
+    have h2 : (canonMap leaf).map = _ := congrArg MapLeaf.map hm'
+    refine ⟨h1, ?_⟩
+    change (canonMap leaf).map.map (evalNF env) = _
+    rw [h2]
+    exact meanNF_eval env "ap" _
+  · cases hm
 
 /-- the checks are not vacuous: another ordering / another shape is told apart -/
 example : decide (Except.ok (areaModel [0, 1, 0]) = (Except.ok (areaModel [1, 0, 0]) : Except String NF)) = false := by
   decide +kernel
-example : agree PVal.empty (tpfpSk [0, 1] 1) (tpfpSk [1, 0] 1) = false := by decide +kernel
-example : agree PVal.empty (mapSk ⟨2, [0, 1], [0, 1], false⟩) (mapSk ⟨2, [0, 1], [0, 1], true⟩) = false := by decide +kernel
+example : agree PVal.empty (relTree (tpfpAdmits [1, 0] 1) (tpfpSk [0, 1] 1) (kindsTree [1, 0])) (.leaf true) = false := by
+  decide +kernel
+/-- … a tie is NOT told apart from its other order, nor an ignored result filed as FP; a real FP filed as ignored is -/
+example : agree PVal.empty (relTree (tpfpAdmits [0, 0] 1) (kindsSk [1, 0] fun ks => .leaf (.ok (leafOfKinds 1 ks)))
+    (kindsTree [0, 0])) (.leaf true) = true := by decide +kernel
+example : tpfpAdmits [1, 0] 1 (.ok (leafOfKinds 1 [.fp, .tp 1])) [.ign, .tp 1] = true ∧
+    tpfpAdmits [1, 0] 1 (.ok (leafOfKinds 1 [.ign, .tp 1])) [.fp, .tp 1] = false ∧
+    tpfpAdmits [1, 0] 1 (.ok (leafOfKinds 1 [.tp 1, .fp])) [.fp, .tp 1] = false := by decide +kernel
+example : agree PVal.empty (mapTree canonMapE (mapSk ⟨2, [0, 1], [0, 1], false⟩)) (mapSk ⟨2, [0, 1], [0, 1], true⟩) = false := by
+  decide +kernel
 
 /-! ## coverage of the rank patterns and the bridge of (a) for all inputs (`PEval/Lemmas/APDTRank.lean`) -/
 
@@ -175,17 +200,25 @@ pattern of the confidences (tabulated with G = 1: the count does not enter the l
 def tpfpRowKey (G : Nat) (rs : List Res) : List Nat × Nat :=
   if rs.isEmpty then ([], G) else (rankPat (rs.map Res.conf), 1)
 
-/-- WHAT THE CODE'S TABLE (a) SAYS ABOUT EVERY INPUT OF LENGTH ≤ 3 (coverage ∘ table theorem ∘ bridge): for every result
-list of 1 … 3 results (any confidences, ties included; any labels, thresholds, mode, ground-truth count), and for the empty
-list with 0 or 2 ground truths, the generated rows contain the row of that input, and the tree of that row, evaluated at the
-valuation of the input and read at its weights, gives exactly the `tp_list`, `fp_list` and "ap is not inf" of the model's
-`Ap` (whenever that answers). -/
-theorem table_tpfp_is_model (tm : TpMetric) (m : Mode) (targets : List Label) (thrs : List Rat) (G : Nat) (rs : List Res)
-    (hshape : (1 ≤ rs.length ∧ rs.length ≤ 3) ∨ (rs = [] ∧ (G = 0 ∨ G = 2)))
-    (out : ApOut) (hout : apOf tm m targets thrs G rs = .ok out) (hrows : Gen.APDT.tpfpRows ≠ []) :
-    ∃ r ∈ Gen.APDT.tpfpRows, (r.1, r.2.1) = tpfpRowKey G rs ∧
-      ∃ leaf, r.2.2.eval (valAP m targets thrs rs) = .ok leaf ∧
-        leaf.read (envW tm rs) = (out.tpList, out.fpList, out.ap.isSome) := by
+/-- SOUNDNESS OF THE RELATIONAL CHECK, restated here for the audit: a tree pair that passes
+`agree PVal.empty (relTree rel code model) (.leaf true)` is related by `rel` on every consistent valuation -/
+theorem rel_check_sound {α β : Type} (rel : α → β → Bool) (code : DTree α) (mdl : DTree β)
+    (h : agree PVal.empty (relTree rel code mdl) (.leaf true) = true) (v : Val) (hc : v.consistent) :
+    rel (code.eval v) (mdl.eval v) = true := relTree_sound rel code mdl h v hc
+
+/-- WHERE THE TEXT LEAVES NO CHOICE (a tabulated pattern without ties, no ignored result, at least one result) the only leaf
+`tpfpAdmits` admits is the model's -/
+theorem tpfp_admits_pinned (pat : List Nat) (G : Nat) (hs : (pat, G) ∈ tpfpShapes) (hne : pat ≠ []) (hst : strictPat pat = true)
+    (c : Except String TpFp) (ks : List K) (hlen : ks.length = pat.length) (hno : ∀ k ∈ ks, k ≠ .ign)
+    (h : tpfpAdmits pat G c ks = true) : c = .ok (leafOfKinds G ks) :=
+  tpfpAdmits_pinned pat G hs hne hst c ks hlen hno h
+
+/-- the row of an input is among the generated rows, and its tree RETURNS a leaf the model's kinds admit -/
+theorem table_tpfp_row (m : Mode) (targets : List Label) (thrs : List Rat) (G : Nat) (rs : List Res)
+    (hshape : (1 ≤ rs.length ∧ rs.length ≤ 3) ∨ (rs = [] ∧ (G = 0 ∨ G = 2))) (hrows : Gen.APDT.tpfpRows ≠ []) :
+    ∃ r ∈ Gen.APDT.tpfpRows, (r.1, r.2.1) = tpfpRowKey G rs ∧ (r.1, r.2.1) ∈ tpfpShapes ∧
+      tpfpAdmits r.1 r.2.1 (r.2.2.eval (valAP m targets thrs rs))
+        ((sortIdx r.1).map (kindAtoms (valAP m targets thrs rs))) = true := by
   have hshapes : Gen.APDT.tpfpRows.map (fun r => (r.1, r.2.1)) = tpfpShapes := by
     rcases tpfp_code_table_eq_model.1 with h | h
     · exact absurd h hrows
@@ -198,28 +231,143 @@ theorem table_tpfp_is_model (tm : TpMetric) (m : Mode) (targets : List Label) (t
       exact rankPat_mem_tpfpShapes _ (by simpa using h1) (by simpa using h3)
     · subst h0
       rcases hG with rfl | rfl <;> decide
+  have hkey' := hkey
   rw [← hshapes, List.mem_map] at hkey
   obtain ⟨r, hr, hk⟩ := hkey
-  refine ⟨r, hr, hk, tpfpAtoms r.1 r.2.1 (valAP m targets thrs rs),
-    tpfp_code_table_eq_model.2 r hr _ (valAP_consistent m targets thrs rs), ?_⟩
+  exact ⟨r, hr, hk, hk ▸ hkey', tpfp_code_table_eq_model.2 r hr _ (valAP_consistent m targets thrs rs)⟩
+
+/-- WHAT THE CODE'S TABLE (a) SAYS ABOUT EVERY INPUT OF LENGTH ≤ 3 (coverage ∘ table theorem): for every result list of
+1 … 3 results (any confidences, ties included; any labels, thresholds, mode, ground-truth count), and for the empty list with
+0 or 2 ground truths, the generated rows contain the row of that input, and the tree of that row, evaluated at the valuation
+of the input, RETURNS; for a non-empty list its leaf is `leafOfKinds` (AP defined; `tp_list` / `fp_list` = running sums) of a
+kind list the text admits: the model's kinds in ranking order, up to the order inside a group of equal confidences and up to
+filing an ignored result as FP (`tpfpVariants`). -/
+theorem table_tpfp_is_admitted (m : Mode) (targets : List Label) (thrs : List Rat) (G : Nat) (rs : List Res)
+    (hshape : (1 ≤ rs.length ∧ rs.length ≤ 3) ∨ (rs = [] ∧ (G = 0 ∨ G = 2))) (hrows : Gen.APDT.tpfpRows ≠ []) :
+    ∃ r ∈ Gen.APDT.tpfpRows, (r.1, r.2.1) = tpfpRowKey G rs ∧
+      ∃ leaf, r.2.2.eval (valAP m targets thrs rs) = .ok leaf ∧
+        (rs = [] ∨ ∃ ks' ∈ tpfpVariants r.1 ((sortIdx r.1).map (kindAtoms (valAP m targets thrs rs))),
+          leaf = leafOfKinds r.2.1 ks') := by
+  obtain ⟨r, hr, hk, _, had⟩ := table_tpfp_row m targets thrs G rs hshape hrows
+  refine ⟨r, hr, hk, ?_⟩
+  unfold tpfpAdmits at had
+  cases he : r.2.2.eval (valAP m targets thrs rs) with
+  | error e => rw [he] at had; simp at had
+  | ok leaf =>
+    rw [he] at had
+    refine ⟨leaf, rfl, ?_⟩
+    have hk1 : r.1 = (tpfpRowKey G rs).1 := by rw [← hk]
+    unfold tpfpRowKey at hk1
+    cases rs with
+    | nil => exact Or.inl rfl
+    | cons x xs =>
+      right
+      simp only [List.isEmpty_cons, Bool.false_eq_true, if_false] at hk1
+      have hE : r.1.isEmpty = false := by
+        rw [hk1]
+        cases hp : rankPat ((x :: xs).map Res.conf) with
+        | nil =>
+          have := congrArg List.length hp
+          rw [rankPat_length] at this
+          simp at this
+        | cons a l => rfl
+      simp only [hE, Bool.false_or, List.any_eq_true, decide_eq_true_eq] at had
+      exact had
+
+/-- THE INPUTS ON WHICH THE TEXT LEAVES NO CHOICE in (a): at least one result, no two results of equal confidence, no
+ignored result (every result's looked-up label has a threshold) -/
+structure TpfpPinned (m : Mode) (targets : List Label) (thrs : List Rat) (rs : List Res) : Prop where
+  nonempty : 1 ≤ rs.length
+  strict : ∀ i j, i < rs.length → j < rs.length → i ≠ j → (rs.map Res.conf).getD i 0 ≠ (rs.map Res.conf).getD j 0
+  noIgn : ∀ j, j < rs.length → kindAtoms (valAP m targets thrs rs) j ≠ .ign
+
+/-- non-vacuity of `TpfpPinned`: two car results with confidences 1 and 2 (one matched, one not), target car, threshold 1 —
+and the predicate excludes a tie and an ignored (pedestrian) result -/
+def pinnedBool (m : Mode) (targets : List Label) (thrs : List Rat) (rs : List Res) : Bool :=
+  decide (1 ≤ rs.length) &&
+  ((List.range rs.length).all fun i => (List.range rs.length).all fun j =>
+    i == j || decide ((rs.map Res.conf).getD i 0 ≠ (rs.map Res.conf).getD j 0)) &&
+  ((List.range rs.length).all fun j => decide (kindAtoms (valAP m targets thrs rs) j ≠ .ign))
+
+theorem pinned_of_bool {m : Mode} {targets : List Label} {thrs : List Rat} {rs : List Res}
+    (h : pinnedBool m targets thrs rs = true) : TpfpPinned m targets thrs rs := by
+  unfold pinnedBool at h
+  simp only [Bool.and_eq_true, decide_eq_true_eq, List.all_eq_true, List.mem_range, Bool.or_eq_true, beq_iff_eq] at h
+  refine ⟨h.1.1, fun i j hi hj hij => ?_, fun j hj => h.2 j hj⟩
+  rcases h.1.2 i hi j hj with h' | h'
+  · exact absurd h' hij
+  · exact h'
+
+example : TpfpPinned .centerDistance [2] [1]
+    [⟨0, 1, 2, some ⟨0, 2⟩, .val (some 0), 1, .default⟩, ⟨1, 2, 2, none, .val none, 1, .default⟩] :=
+  pinned_of_bool (by decide +kernel)
+example : pinnedBool .centerDistance [2] [1]
+    [⟨0, 1, 2, some ⟨0, 2⟩, .val (some 0), 1, .default⟩, ⟨1, 1, 2, none, .val none, 1, .default⟩] = false ∧
+  pinnedBool .centerDistance [2] [1]
+    [⟨0, 1, 2, some ⟨0, 2⟩, .val (some 0), 1, .default⟩, ⟨1, 2, 4, none, .val none, 1, .default⟩] = false := by
+  decide +kernel
+
+theorem strictPat_rankPat (cs : List Rat)
+    (h : ∀ i j, i < cs.length → j < cs.length → i ≠ j → cs.getD i 0 ≠ cs.getD j 0) : strictPat (rankPat cs) = true := by
+  unfold strictPat
+  rw [rankPat_length, List.all_eq_true]
+  intro i hi
+  rw [List.all_eq_true]
+  intro j hj
+  simp only [List.mem_range] at hi hj
+  by_cases hij : i = j
+  · simp [hij]
+  · simp only [Bool.or_eq_true, beq_iff_eq, hij, false_or, bne_iff_ne, ne_eq]
+    intro he
+    have h1 := rankPat_iso cs i j hi hj
+    have h2 := rankPat_iso cs j i hj hi
+    rw [he] at h1
+    rw [he] at h2
+    have n1 : ¬ cs.getD i 0 < cs.getD j 0 := fun hlt => absurd (h1.2 hlt) (Nat.lt_irrefl _)
+    have n2 : ¬ cs.getD j 0 < cs.getD i 0 := fun hlt => absurd (h2.2 hlt) (Nat.lt_irrefl _)
+    exact h i j hi hj hij (le_antisymm (not_lt.1 n2) (not_lt.1 n1))
+
+/-- WHERE THE TEXT LEAVES NO CHOICE THE CODE'S TABLE (a) IS THE MODEL (coverage ∘ table theorem ∘ `tpfpAdmits_pinned` ∘
+bridge): for every PINNED result list of 1 … 3 results (`TpfpPinned`) the generated rows contain the row of that input, and
+the tree of that row, evaluated at the valuation of the input and read at its weights, gives exactly the `tp_list`, `fp_list`
+and "ap is not inf" of the model's `Ap` (whenever that answers). -/
+theorem table_tpfp_is_model (tm : TpMetric) (m : Mode) (targets : List Label) (thrs : List Rat) (G : Nat) (rs : List Res)
+    (hpin : TpfpPinned m targets thrs rs) (h3 : rs.length ≤ 3)
+    (out : ApOut) (hout : apOf tm m targets thrs G rs = .ok out) (hrows : Gen.APDT.tpfpRows ≠ []) :
+    ∃ r ∈ Gen.APDT.tpfpRows, (r.1, r.2.1) = tpfpRowKey G rs ∧
+      ∃ leaf, r.2.2.eval (valAP m targets thrs rs) = .ok leaf ∧
+        leaf.read (envW tm rs) = (out.tpList, out.fpList, out.ap.isSome) := by
+  have h1 := hpin.nonempty
+  obtain ⟨r, hr, hk, hsh, had⟩ := table_tpfp_row m targets thrs G rs (Or.inl ⟨h1, h3⟩) hrows
   have hk1 : r.1 = (tpfpRowKey G rs).1 := by rw [← hk]
-  have hk2 : r.2.1 = (tpfpRowKey G rs).2 := by rw [← hk]
-  unfold tpfpRowKey at hk1 hk2
-  rcases hshape with ⟨h1, h3⟩ | ⟨h0, _⟩
-  · have hne : rs.isEmpty = false := by cases rs <;> simp at h1 ⊢
-    simp only [hne, Bool.false_eq_true, if_false] at hk1 hk2
-    have hp : r.1 ≠ [] := by
-      intro h
-      have := congrArg List.length h
-      rw [hk1, rankPat_length, List.length_map, List.length_nil] at this
-      omega
-    rw [tpfpAtoms_G r.1 hp r.2.1 G, hk1]
-    exact tpfp_bridge tm m targets thrs G rs _ (by rw [rankPat_length, List.length_map])
-      (fun i j hi hj => rankPat_iso _ i j (by simpa using hi) (by simpa using hj)) out hout
-  · subst h0
-    simp only [List.isEmpty_nil, if_true] at hk1 hk2
-    rw [hk1, hk2]
-    exact tpfp_bridge tm m targets thrs G [] [] rfl (fun i j hi _ => absurd hi (by simp)) out hout
+  unfold tpfpRowKey at hk1
+  have hne : rs.isEmpty = false := by cases rs <;> simp at h1 ⊢
+  simp only [hne, Bool.false_eq_true, if_false] at hk1
+  have hlenp : r.1.length = rs.length := by rw [hk1, rankPat_length, List.length_map]
+  have hp : r.1 ≠ [] := by
+    intro h
+    have := congrArg List.length h
+    rw [hlenp, List.length_nil] at this
+    omega
+  have hst : strictPat r.1 = true := by
+    rw [hk1]
+    exact strictPat_rankPat _ (by simpa using hpin.strict)
+  have hsl : (sortIdx r.1).length = r.1.length := by
+    unfold sortIdx
+    rw [(sortDesc_perm _ _).length_eq, List.length_range]
+  have hno : ∀ k ∈ (sortIdx r.1).map (kindAtoms (valAP m targets thrs rs)), k ≠ .ign := by
+    intro k hkm
+    obtain ⟨j, hj, rfl⟩ := List.mem_map.1 hkm
+    have hjr : j ∈ List.range r.1.length := by
+      have := (sortDesc_perm (fun j => ((r.1.getD j 0 : Nat) : Rat)) (List.range r.1.length)).mem_iff.1 hj
+      exact this
+    exact hpin.noIgn j (by rw [← hlenp]; exact List.mem_range.1 hjr)
+  have hleaf := tpfpAdmits_pinned r.1 r.2.1 hsh hp hst _ _ (by rw [List.length_map, hsl]) hno had
+  refine ⟨r, hr, hk, leafOfKinds r.2.1 ((sortIdx r.1).map (kindAtoms (valAP m targets thrs rs))), hleaf, ?_⟩
+  change (tpfpAtoms r.1 r.2.1 (valAP m targets thrs rs)).read (envW tm rs) = _
+  rw [tpfpAtoms_G r.1 hp r.2.1 G, hk1]
+  exact tpfp_bridge tm m targets thrs G rs _ (by rw [rankPat_length, List.length_map])
+    (fun i j hi hj => rankPat_iso _ i j (by simpa using hi) (by simpa using hj)) out hout
 
 /-- the same coverage for the area table (b2): for EVERY precision / recall lists of length ≤ 3 the generated rows contain a
 row whose pattern is ordered like the precisions (the rank pattern), and its polynomial, read at the numbers, is the model's
@@ -259,17 +407,24 @@ theorem map_skeleton_is_model (m : Mode) (is2d : Bool) (targets : List Label) (t
 
 /-- WHAT THE CODE'S TABLE (c) SAYS ABOUT EVERY INPUT OF A TABULATED SHAPE (table theorem ∘ bridge): for every row and every
 input of the row's shape on which the model's `Map` answers, the tree of the real `Map.__init__`, evaluated at the
-valuation of the input, gives a leaf that reads as the model's output (per-label `Ap`s built from the entries and the
+valuation of the input, gives a leaf that — its `aps` / `aphs` listed by target label (`canonMap`) — reads as the model's output (per-label `Ap`s built from the entries and the
 threshold of THEIR label, mAP / mAPH = means over the labels with a result) -/
 theorem table_map_is_model (m : Mode) (is2d : Bool) (targets : List Label) (thrs : List Rat)
     (buckets : List (Label × List (List Res))) (nums : List (Label × Nat)) (hnd : targets.Nodup)
     (hlen : thrs.length = targets.length) (out : MapOut) (hout : mapOf m is2d targets thrs buckets nums = .ok out) :
     ∀ r ∈ Gen.APDT.mapRows, r.1 = shapeOfMap is2d targets buckets nums →
-      ∃ leaf, r.2.eval (valMap targets buckets) = .ok leaf ∧ MapLeafReads m targets thrs buckets nums leaf out := by
+      ∃ leaf, r.2.eval (valMap targets buckets) = .ok leaf ∧
+        MapLeafReads m targets thrs buckets nums (canonMap leaf) out := by
   intro r hr hshape
   obtain ⟨leaf, h1, h2⟩ := map_bridge m is2d targets thrs buckets nums hnd hlen out hout
-  refine ⟨leaf, ?_, h2⟩
-  rw [map_code_table_eq_model.2 r hr _ (valMap_consistent targets buckets), hshape, h1]
+  have hm := map_code_table_eq_model.2 r hr _ (valMap_consistent targets buckets)
+  rw [hshape, h1] at hm
+  cases he : r.2.eval (valMap targets buckets) with
+  | error e => rw [he] at hm; cases hm
+  | ok leaf0 =>
+    rw [he] at hm
+    have : canonMap leaf0 = leaf := Except.ok.inj hm
+    exact ⟨leaf0, rfl, this ▸ h2⟩
 
 /-- non-vacuity: a required shape is the shape of a concrete input (labels 5, 7; result dict keyed 7, 5) -/
 example : shapeOfMap false [5, 7] [(7, []), (5, [])] [(5, 0), (7, 0)] = ⟨2, [1, 0], [0, 1], false⟩ := by decide
